@@ -1,3 +1,4 @@
 import RaftProofs.Inflights
 import RaftProofs.Quorum
 import RaftProofs.ConfChange
+import RaftProofs.RaftLog
